@@ -304,6 +304,8 @@ def run(rep, tier):
     operation_contracts(rep)
     dominance(rep)
     estimator_uses_fresh_operation(rep)
+    from . import c16
+    c16.frame_only(rep)          # expression-defined operators are evaluated by the interpreter on every read of Operation.operator
     kernels.run_scope(rep, OPFILES)
     cells = reuse_cells(tier, common.seed())
     res = CE.run_cells(cells)
